@@ -45,7 +45,7 @@ Theorem C13_source_shape :
   Gen_startup.zero_period_disables = true /\ Gen_startup.comparison_is_strict_in_ms = true /\
   Gen_startup.elapsed_saturates = true /\ Gen_startup.close_needs_both_directions_idle = true /\
   Gen_startup.ticker_period_s = 1 /\ Gen_startup.set_idle_timeout_assigns_unconditionally = true /\
-  Gen_startup.udp_sessions_take_the_udp_timeout = 3.
+  Gen_startup.udp_sessions_take_the_udp_timeout = 3 /\ Gen_startup.connect_udp_sessions_take_the_udp_timeout = true.
 Proof. repeat split; reflexivity. Qed.
 Print Assumptions C13_source_shape.
 
